@@ -29,6 +29,7 @@ import itertools
 import json
 import common
 from common import err_kind
+from props import c15_tr
 
 # Performance only: the histories and their observations are millions of small, long-lived,
 # acyclic containers; CPython's generational collector re-traverses them again and again (measured:
@@ -72,9 +73,25 @@ RULE = ("exhaustive histories over small universes (mk: 3 keys x 2 values, tuple
         "in key-tuple order); for sd histories the final sd[k] is compared with `sdLastAssigned` read off the history alone; "
         "entry sdn (outside the property, as coded): exhaustive depth <= 3 histories over 10 operations using the NAME 'default' "
         "(sd['default'] = f, del sd['default'], del sd.default) against the as-coded model, model only; "
+        "translator self-test: six edited copies of the source text (comparison swapped, constant changed, statement dropped, hash() moved behind the deletions, assignment moved in front of the deletion loop, handler widened) must each change the generated Lean text or fail to translate, a copy with extra comments / docstrings / blank lines must not; "
         "a case is non-trivial when at least one assignment succeeded and "
         "the final dict is non-empty or an exception was observed; distinct = distinct JSON history")
 TRUSTED = [
+    "translator T5 (harness/props/c15_tr.py: ast -> lean/ALV/Gen/C15Src.lean, re-run before every build): it TRUSTS (a) the "
+    "semantics it assumes for the Python subset it accepts — statements run in order, `A and B` / `x if c else y` short-circuit, "
+    "a `for` over a tuple/list is a left fold of its body, `try: ... except KeyError:` catches exactly the KeyError of its body "
+    "and its handler starts from the state the `try` was entered with (accepted only when nothing in the body can raise after a "
+    "mutation; the callee's own atomicity is the model's), a generator expression under tuple() is filter/map, attribute and "
+    "method lookups follow the MRO StrategyDict -> MultiKeyDict -> dict/object with no `__getattr__` / `__setattr__` hooks (checked "
+    "on the class bodies) and no override in the per-instance subclass StrategyDictInstance (NOT checked: its body is outside the "
+    "subset); (b) the vocabulary mapping — dict `d[k]` / `k in d` / `d[k] = v` / `del d[k]` / `d.get(k, tuple())` = dget / dhas / "
+    "dset / ddel on an association list with KeyError from the first and fourth, `getattr` / `setattr` / `hasattr` / "
+    "`object.__delattr__` / `vars(self)` = the same on the attribute list with AttributeError, `self.default` = the instance "
+    "attribute or the class lambda (never equal to a stored strategy), tuple `+` / `reversed` / `tuple()` / `(k,)` / `len` / "
+    "`k in list` = list operations with `==` on the items, `hash(x)` = no effect for hashable operands and a rejection for an "
+    "unhashable one; (c) the declared KINDS of the parameters (key / key tuple / value / the name 'default' / unhashable), on "
+    "which `isinstance(key, tuple)` and `isinstance(k, STR_TYPES)` are decided.  None of this is proved; all of it is exercised "
+    "by the differential tie, whose model functions the regenerated ones are proved equal to",
     "hand-written Lean model ALV/Model/C15.lean of lazy_core.MultiKeyDict / StrategyDict "
     "(modelled, not verified: Python dict = insertion-ordered association list; vars(self) = association "
     "list with the attribute `default` as a distinguished name; a KeyError / AttributeError leaves the model state "
@@ -153,9 +170,10 @@ MANIFEST = {
              "length, non-strings) on both classes, a refused assignment anywhere in a call history with the offending item at any "
              "position leaves every later result and the final state as if never issued, attribute = item and default = first "
              "stored for call histories; the NAME 'default' as coded (outside the property: it overrides the default and its "
-             "deletion raises after removing).  Tied to /repo by exhaustive small-universe, random and long histories over value and key "
+             "deletion raises after removing); round 5: the bodies of __getitem__ / __setitem__ / __delitem__ / key2keys / value2keys / __iter__ of MultiKeyDict and __setitem__ / __delitem__ / __delattr__ / __call__ / __iter__ of StrategyDict, read from the source and translated statement by statement, ARE the model functions (17 theorems src_*_is_model), incl. that the statement hashing an unhashable key / value / name precedes every mutation.  Tied to /repo by exhaustive small-universe, random and long histories over value and key "
              "universes in which equality, identity and type differ, incl. iteration order of the three dicts."),
-    "note": ("Trusted: Lean kernel (axioms propext, Classical.choice, Quot.sound), the Python correspondence harness; the "
+    "note": ("Trusted: Lean kernel (axioms propext, Classical.choice, Quot.sound), the Python correspondence harness, the source "
+             "translator (Python-subset semantics, vocabulary mapping, parameter kinds: see trusted base); the "
              "model (Python dict = insertion-ordered association list, vars(self) = association list) is hand written "
              "and validated against the code differentially after every step of every history, incl. the private maps "
              "_keys_dict / _inv_dict.  Values are modelled up to == (which equal object is stored is not modelled).  Outside "
@@ -163,7 +181,7 @@ MANIFEST = {
              "multi-name assignment (known finding), keys that are themselves tuples, values whose hash disagrees with ==, "
              "StrategyDict names colliding with class attributes, and the inherited dict mutators (update, pop, popitem, clear, "
              "setdefault, |=) which bypass the maps."),
-    "technique": "Lean 4 invariant + forward-simulation (refinement) proof over an executable model; differential history correspondence",
+    "technique": "Lean 4 invariant + forward-simulation (refinement) proof over an executable model whose method bodies are REGENERATED from the source on every run by the translator harness/props/c15_tr.py (ast -> ALV/Gen/C15Src.lean, statement by statement) and proved equal to the model functions (src_*_is_model); differential history correspondence",
 }
 
 MK_KEYS = ["a", "b", "c"]
@@ -1798,8 +1816,79 @@ def _outside_observed():
     return out
 
 
+def regenerate(eng=None):
+    """translator T5: rewrite lean/ALV/Gen/C15Src.lean from the method bodies of the repo under test"""
+    return c15_tr.regenerate(eng)
+
+
+# (what, old text, new text): deliberate edits of the SOURCE TEXT the translator must notice
+_TR_EDITS = [
+    ("comparison swapped in __delitem__ (k != key -> k == key)",
+     "new_key = tuple(k for k in key_tuple if k != key)", "new_key = tuple(k for k in key_tuple if k == key)"),
+    ("constant changed in StrategyDict.__delitem__ (len(keys) == 1 -> == 2)",
+     "del_default = len(keys) == 1 and value == self.default", "del_default = len(keys) == 2 and value == self.default"),
+    ("statement dropped in __delitem__ (del self._inv_dict[value])", "    del self._inv_dict[value]\n", ""),
+    ("hash(key) moved behind the deletion loop of __setitem__",
+     "    hash(key) # An unhashable key is refused before anything is changed\n", None),
+    ("super().__setitem__ moved in front of the deletion loop of StrategyDict.__setitem__",
+     "    super(StrategyDict, self).__setitem__(keys, value)\n", None),
+    ("handler widened in StrategyDict.__setitem__ (except KeyError -> except Exception)",
+     "      except KeyError:\n        pass # Not found!", "      except Exception:\n        pass # Not found!"),
+]
+_TR_MOVE_TO = {3: ("    # Do the assignment\n    for k in key:\n      self._keys_dict[k] = key\n", "after"),
+               4: ("    for k in keys:\n      try:\n        del self[k]", "before")}
+
+
+def _translator_selftest(eng):
+    out = []
+    try:
+        src = c15_tr.read_source()
+        base = c15_tr.translate(src)
+    except Exception as e:
+        return [("translator-selftest", False, "the source does not translate: %s: %s" % (type(e).__name__, e))]
+    import os
+    path = os.path.join(common.LEAN, c15_tr.GEN_REL)
+    on_disk = open(path).read() if os.path.exists(path) else None
+    out.append(("translator-selftest: the file on disk is the translation of the source (deterministic, byte for byte)",
+                on_disk == base, "" if on_disk == base else "lean/%s differs from a fresh translation" % c15_tr.GEN_REL))
+    # harmless edits are normalised away: comments, blank lines, a docstring
+    quiet = src.replace("  def key2keys(self, key):\n", "  def key2keys(self, key):   # a comment\n\n")
+    quiet = quiet.replace("    key_tuple = self._keys_dict[key]\n", "    \"\"\" a docstring \"\"\"\n    key_tuple = self._keys_dict[key]  # look-up\n")
+    try:
+        same = quiet != src and c15_tr.translate(quiet) == base
+    except Exception as e:
+        same = False
+    out.append(("translator-selftest: comments / blank lines / docstrings do not change the translation", same, ""))
+    applied = 0
+    for i, (what, old, new) in enumerate(_TR_EDITS):
+        if src.count(old) != 1:
+            eng.count("translator_selftest", "edit site not found: " + what)
+            continue
+        if new is None:          # move the line
+            anchor, side = _TR_MOVE_TO[i]
+            rest = src.replace(old, "")
+            if rest.count(anchor) != 1:
+                eng.count("translator_selftest", "edit site not found: " + what)
+                continue
+            edited = rest.replace(anchor, anchor + old if side == "after" else old + anchor)
+        else:
+            edited = src.replace(old, new)
+        applied += 1
+        try:
+            got = c15_tr.translate(edited)
+            res = "same text" if got == base else "different Lean text"
+        except c15_tr.TranslationError as e:
+            res = "TranslationError"
+        except SyntaxError as e:
+            res = "edited text does not parse"
+        eng.count("translator_selftest", "%s -> %s" % (what, res))
+        out.append(("translator-selftest: " + what, res in ("different Lean text", "TranslationError"), res))
+    out.append(("translator-selftest: at least 4 of the 6 edits apply to this source", applied >= 4, "%d applied" % applied))
+    return out
+
+
 def extra_checks(eng):
-    """no obligation, a record of the scope decision: the dict mutators the property does not name are
+    """translator self-test (obligations) + a record of the scope decision (no obligation): the dict mutators the property does not name are
     still the ones inherited from dict (they bypass the three maps); if the class starts overriding
     one, the histogram shows it and the decision should be revisited"""
     from audiolazy import MultiKeyDict, StrategyDict
@@ -1811,7 +1900,13 @@ def extra_checks(eng):
             eng.count("inherited_from_dict", "%s.%s:%s" % (
                 cls.__name__, name, "overridden" if own else
                 "inherited(in the model)" if name in _IN_MODEL else "inherited(bypasses the maps, out of scope)"))
-    return []
+    eng.extra["translated"] = {
+        "translator": "harness/props/c15_tr.py -> lean/" + c15_tr.GEN_REL.replace("\\", "/") + " (shallow: Lean functions over St / SD in Except Err)",
+        "under_translator": ["%s.%s%s -> ALV.Gen.C15.%s = model (theorem src_%s_is_model)" % (c, m, list(k), g, g)
+                             for c, m, g, k in c15_tr.SPECS],
+        "not_translated": dict(c15_tr.NOT_TRANSLATED),
+    }
+    return _translator_selftest(eng)
 
 
 def tally(eng, c, io):
